@@ -146,6 +146,13 @@ Section Loss.
     let l := fst st in let n := snd st in
     (if avg then (l * fnat n + ln) / fnat (S n) else l + ln, S n).
 
+  (* specification helpers used in the theorem statements: the sum of a list
+     of term values, and the accumulator run over a list of term values *)
+  Fixpoint lsumF (l : list F) : F :=
+    match l with [] => 0 | x :: r => x + lsumF r end.
+  Definition acc_run (avg : bool) (st : F * nat) (ls : list F) : F * nat :=
+    fold_left (acc_step avg) ls st.
+
   (* body of the scan: predict through the stored backward conditional, then
      bayes_rule_and_logpdf with the observation model of that time point *)
   Definition lml_body (val : dterm -> F) (avg : bool) (s : shape)
